@@ -2,8 +2,8 @@
    truth-table semantics and the specification's satisfaction table. ExtrOcamlBasic only; no
    Extract Constant directives of our own. Written to the current directory as lmodel.ml. *)
 From Coq Require Extraction ExtrOcamlBasic.
-From Verif Require Import Ast TypeCheck SatSpec LiftModel.
+From Verif Require Import Ast TypeCheck SatSpec LiftModel LiftLimits ExecTr.
 Extraction Language OCaml.
 Extraction "lmodel.ml" type_of sd all_sat all_dsat after_ok older_ok
   leval lpolicy_eqb lres_eqb normalized lift_raw lift_iter lift_full lift lift_desc desc_spendable nonempty
-  has_mixed_timelocks.
+  has_mixed_timelocks within_resource_limits lift_ctx redesc lift_desc_ctx desc_bits trace_of_script.
